@@ -9,7 +9,8 @@ They are not inductive: a quiet move from `halfmove = 4095` leaves the well-form
 a budget: `Inv k b` = "`b` is well-formed and stays within the clock bounds for `k` more plies".
 
 * H1 `unmake_make_of_generated`: PROVED from `C03.unmake_make_generated`/`unmake_make_generated_nq`.
-* H2' `BoardLaws.make_inv`: a generated move that passes `isValid` takes `Inv (k+1)` to `Inv k`.
+* H2' `BoardLaws.make_inv`: a generated move that passes `isValid` takes `Inv (k+1)` to `Inv k`
+  (stated here, PROVED in `Proofs/WfStepProof.lean` as `Search.boardLaws`).
 -/
 namespace Inkayaku.Search
 open Inkayaku.Board Inkayaku.WF Inkayaku.BoardCongr
